@@ -396,6 +396,10 @@ def run(rep):
     rep.rule('R14.6', 'a registry hook binds as hook(interface, object): '
              'LookupBase.adapter_hook(provided, object, ...) and '
              'queryAdapter(object, provided) share one worker', floor=2)
+    rep.rule('R14.7', 'hooks are arbitrary code and may change adapter_hooks while '
+             '__adapt__ walks it (the Python reference iterates the live list): the C '
+             'walk bounds its index by the CURRENT list size at every step and holds '
+             'each hook across its call', floor=1)
     rep.decline('none (relative to providedBy, C01, and the registry lookup, '
                 'C04/C08)')
 
@@ -590,6 +594,10 @@ def run(rep):
               bool(find_all(q, 'self.adapter_hook(provided, object, name, default)')),
               'queryAdapter(object, provided) runs the same worker',
               construct='same-worker', node=q)
+
+    # ---- R14.7 ---------------------------------------------------------------
+    from . import csem as _csem
+    _csem.hook_walk(rep, 'R14.7', u)
 
 
 def extra_coverage(rep):
